@@ -91,3 +91,44 @@ Proof.
     + vm_compute. discriminate.
   - vm_compute. discriminate.
 Qed.
+
+(* ---- deepening round ---- *)
+Definition ex_map : list (Z * Z) := [(-16384, -16384); (0, 0); (8192, 4096); (16384, 16384)].
+Example c11_monotone_map_nonvacuous : monotone_map ex_map.
+Proof. unfold ex_map, monotone_map, i16. cbn [mono_from last fst snd]. unfold i16. repeat split; lia. Qed.
+(* the end-point condition of monotone_map is needed: outside the map the function is the identity, so a map whose
+   last point lies above the diagonal is not monotone across it (0.0 -> 0.5 but 1/65536 -> 1/65536) *)
+Example c11_avar_needs_endpoint_condition : avar_apply [(0, 8192)] 0 = 32768 /\ avar_apply [(0, 8192)] 1 = 1.
+Proof. split; reflexivity. Qed.
+
+(* row layout with LONG_WORDS and a word count (3) beyond the column count (2): stride 12, both cells 32-bit, 4 bytes
+   of padding per row *)
+Example c11_row_layout_long_beyond :
+  delta_row_len (32768 + 3) 2 = 12 /\
+  delta_set_bytes (32768 + 3) 2 [0;1;0;0; 255;255;255;254; 9;9;9;9;  128;0;0;0; 0;0;0;7; 9;9;9;9] 1 = [-2147483648; 7] /\
+  delta_set_bytes (32768 + 3) 2 [0;1;0;0; 255;255;255;254; 9;9;9;9;  128;0;0;0; 0;0;0;7; 9;9;9;9] 0 = [65536; -2] /\
+  delta_set_bytes (32768 + 3) 2 [0;1;0;0; 255;255;255;254; 9;9;9;9;  128;0;0;0; 0;0;0;7; 9;9;9;9] 2 = [].
+Proof. repeat split; reflexivity. Qed.
+(* short words, word count 1 of 3 columns: one i16 then two i8 *)
+Example c11_row_layout_short : delta_set_bytes 1 3 [255; 0; 128; 127; 0; 5; 1; 2] 1 = [5; 1; 2]
+                               /\ delta_set_bytes 1 3 [255; 0; 128; 127; 0; 5; 1; 2] 0 = [-256; -128; 127].
+Proof. split; reflexivity. Qed.
+
+(* metrics: 3 glyphs, 2 long metrics, an advance map with 2 entries (glyph 2 clamps to the last entry = row 1) *)
+Definition ex_font : metrics_font :=
+  {| mf_glyph_count := 3; mf_upem := 1000; mf_h_metrics := [(500, 10); (600, 20)]; mf_lsbs := [30];
+     mf_hvar := Some {| hv_store := {| vs_regions := [[(0, 16384, 16384)]];
+                                      vs_data := [Some {| st_item_count := 2; st_wdc := 0; st_regions := [0]; st_rows := [[100]; [-40]] |}] |};
+                        hv_adv_map := Some (0, 2, [0; 1]); hv_lsb_map := None |} |}.
+Example c11_metrics_example :
+  advance_width ex_font 4194304 0 [16384] = Some (Some (600 * 65536)) /\
+  advance_width ex_font 4194304 1 [8192] = Some (Some (580 * 65536)) /\
+  advance_width ex_font 4194304 2 [16384] = Some (Some (560 * 65536)) /\     (* last long metric 600, clamped index -> row 1 *)
+  advance_width ex_font 4194304 2 [0] = Some (Some (600 * 65536)) /\
+  advance_width ex_font 4194304 3 [16384] = Some None /\
+  left_side_bearing ex_font 4194304 2 [16384] = Some (Some (30 * 65536)).     (* no lsb map: no delta *)
+Proof. repeat split; reflexivity. Qed.
+
+(* the split rule on row counts: exactly 0xFFFF rows -> one subtable, one more -> [0xFFFF; 1] *)
+Example c11_split_rule : check_case (CChunks [65535; 65536; 1; 0] [65535; 65535; 1; 1; -1]) = true.
+Proof. vm_compute. reflexivity. Qed.
